@@ -30,7 +30,8 @@ ss_op_ctx = dict(cls='ss_op', members=['stopSource_', 'receiverToken_'], methods
                  pre=[(r'unifex::start\(innerOp_\)', 'EV_start_inner(self)')])
 ss_rcv_ctx = dict(cls='ss_receiver', members=['op_'], methods=[],
                   obj_methods={'deregister_callbacks': 'fused_deregister_callbacks'},
-                  pre=SIGNALS + TOKENS + [(r'\bop_\.', 'op_->'), (r'\br\.', 'r->')])
+                  pre=SIGNALS + TOKENS + [(r'\bop_\.receiverToken_\.stop_requested\(\)', 'EV_parent_stop_requested()'),   # not in the pinned code: lets a variant that consults the parent token compile
+                                          (r'\bop_\.', 'op_->'), (r'\br\.', 'r->')])
 tk_op_ctx = dict(cls='tk_op', members=['stopSource_', 'receiverToken_'], methods=[],
                  obj_methods={'register_callbacks': 'fused_register_callbacks', 'deregister_callbacks': 'fused_deregister_callbacks'},
                  pre=[(r'unifex::start\(innerOp_\)', 'EV_start_inner(self)')])
@@ -38,7 +39,7 @@ tki_op_ctx = dict(cls='tki_op', members=[], methods=[],
                   pre=TOKENS + [(r'unifex::start\(innerOp_\)', 'EV_start_inner(self)')])
 tk_rcv_ctx = dict(cls='tk_receiver', members=['op_', 'stop_token_'], methods=['cleanup'],
                   obj_methods={'cleanup': 'tk_dispatch_cleanup'},
-                  pre=SIGNALS + [(r'\br\.', 'r->')])
+                  pre=SIGNALS + [(r'\bop_(?:\.|->)receiverToken_\.stop_requested\(\)', 'EV_parent_stop_requested()'), (r'\br\.', 'r->')])
 fss_ctx = dict(cls='fused', members=[], methods=[],
                pre=[(r'callbacks_\.emplace\(\*this, std::move\(tokens\)\.\.\.\)', 'EV_cb_emplace(self, tokens)'),
                     (r'callbacks_\.reset\(\)', 'EV_cb_reset(self)')])
